@@ -17,6 +17,7 @@ unchanged.  `exactly symbol CASE` never executes anything; on a valid case it li
 their types and numbers of references.
 """
 import os
+import re
 
 from hypothesis import strategies as st
 
@@ -455,6 +456,7 @@ from vlib.gen import c03_grammar as CG
 from vlib.ref import c03_model as MODEL
 
 _OK_CONTROL_EXITS = (0, 32, 33, 128)
+_TIMING = re.compile(r'\(\d+\.\d+s\)')  # the progress reporter of `suite` prints the time a case took
 _JOINT_LABELS = bool(os.environ.get('C03_JOINT_LABELS'))
 
 
@@ -465,11 +467,11 @@ def _materialise(ws, files):
         os.chmod(os.path.join(ws.home, rel), 0o755)
 
 
-def _observe(files, argv):
+def _observe(files, argv, subproc=False):
     with driver.Workspace() as ws:
         _materialise(ws, files)
         before = driver.tree_snapshot(ws.home)
-        r = driver.run_inproc(ws, argv)
+        r = driver.run_subproc(ws, argv) if subproc else driver.run_inproc(ws, argv)
         after = driver.tree_snapshot(ws.home)
         return {'exit': r.exit_code, 'out': r.out, 'err': r.err, 'exception': r.exception, 'timed_out': r.timed_out,
                 'markers': ws.read_markers(), 'probes': len(ws.probe_records('probe')), 'sandboxes': r.sandboxes,
@@ -533,6 +535,9 @@ def judge_defect(case, d, o, built):
     what = nothing_happened(o)
     if what:
         return what, {}
+    if mode == 'symbol-suite' and cls == CG.CLS_SYNTAX and o['exit'] == 3 and \
+            (_first_line(o['out']) or _first_line(o['err'])) == 'INVALID_SUITE':
+        return None  # "corresponding to the outcome of running the corresponding ... test suite"
     if mode == 'suite':
         if in_suite_file and cls == CG.CLS_SYNTAX:
             # a mistake of form in the suite file itself: "Invalid suite ... Exit code 3"
@@ -581,6 +586,8 @@ def check_generated(case) -> Verdict:
     # ---- control: the valid case is executed, with effects before and in the phase of the carrier
     must = GC.markers_before_carrier(case)
     problem = None
+    if oc['timed_out']:
+        return Verdict(inconclusive=True, labels=base_labels + ['control-timeout'])
     if oc['exception'] or oc['timed_out'] or oc['exit'] not in _OK_CONTROL_EXITS:
         problem = 'valid-case-not-executed'
     elif [m for m in oc['markers'] if m in must] != must:
@@ -633,6 +640,8 @@ def check_generated(case) -> Verdict:
             labels.append('identity-edit')
             continue
         o = _observe(files, argv)
+        if o['timed_out']:
+            return Verdict(inconclusive=True, labels=labels + ['timeout'])
         hole_kind = car['elems'][d['ei']]['toks'][op['tok']][1].split(':')[0] if 'tok' in op else (
             'path' if op['edit'] == 'span' else 'instruction')
         dl = ['op:' + op['op'], 'mode:' + d['mode'], 'cls:' + op['cls'], 'hole:' + hole_kind]
@@ -655,6 +664,16 @@ def check_generated(case) -> Verdict:
         if op['op'] == 'missing-home-file':
             dl += ['missing:' + op['form']]
         verdict = judge_defect(case, d, o, built)
+        if verdict is None and case.get('subproc'):
+            # the same through a real OS process: guards against artefacts of the in-process driver
+            dl.append('also-as-os-process')
+            osub = _observe(files, argv, subproc=True)
+            if osub['timed_out']:
+                dl.append('os-process-timeout')
+            elif (osub['exit'], _TIMING.sub('(T)', osub['out'])) != (o['exit'], _TIMING.sub('(T)', o['out'])) or \
+                    nothing_happened(osub):
+                detail['as_os_process'] = _short(osub)
+                verdict = ('os-process-differs-or-acts:%s' % (nothing_happened(osub) or 'other-report'), {})
         if verdict is not None and verdict[0] == 'tolerated':
             dl.append(verdict[1])
             verdict = None
@@ -677,8 +696,8 @@ def check_generated(case) -> Verdict:
 
 SUBS = [
     Sub('defect_has_no_effect', check, strategy=lambda tier: cases(),
-        budget={'quick': 800, 'thorough': 30000}),
+        budget={'quick': 600, 'thorough': 20000}),
     Sub('generated_defect', check_generated, strategy=lambda tier: GC.generated_cases(tier),
-        budget={'quick': 1500, 'thorough': 40000}),
+        budget={'quick': 1400, 'thorough': 36000}),
     Sub('enumerated_defects', check_generated, enumerate=GC.enumerated_cases),
 ]
